@@ -54,8 +54,8 @@ CLAIMS = {
   note="Assumes the Reader model. Undecided so far: ParseQuoted/ParseLiteral/atoms, command.Parser.Parse tag handling, recursion depth of search keys, session loop (one completion per command), process RSS.",
   ref="DESIGN.md §4 C11"),
  "C16": dict(
-  text="Deductive proof, for every sequence set and every view size, that written numbers fit 32 bits (type invariant of SeqNum established by the parser), that resolution of numbers/ranges/'*' yields the RFC interval (min/max, '*' = last), that a sequence-number set fails with ErrNoSuchMessage exactly when some number lies beyond the message count or the view is empty, that every returned message is the one at its sequence number and lies in a requested range, and that UID sets never fail on a non-empty view and return only messages whose UID lies in a requested range; the FETCH and STORE handlers answer BAD (not NO, not an error) when the state reports a sequence set beyond the view.",
-  note="Assumes dependency specs (BinarySearchFunc), sorted/indexed snapshot invariant at entry (proved preserved under C01). Undecided: completeness of the concatenation across ranges (proved per range in seqRange/uidRange only), mapping of ErrNoSuchMessage to BAD in the handlers, SEARCH sequence-set keys. Known deviation pinned by the existing tests: `n:*` with n above the highest UID selects nothing (RFC 3501 says it includes the last message) — see DESIGN.md.",
+  text="Deductive proof, for every sequence set and every view size, that written numbers fit 32 bits (type invariant of SeqNum established by the parser), that resolution of numbers/ranges/'*' yields the RFC interval (min/max, '*' = last), that a sequence-number set fails with ErrNoSuchMessage exactly when some number lies beyond the message count or the view is empty, that every returned message is the one at its sequence number and lies in a requested range, and that UID sets never fail on a non-empty view and return only messages whose UID lies in a requested range; the FETCH, STORE and SEARCH handlers answer BAD (not NO, not an error) when the state reports a sequence set beyond the view; a SEARCH sequence-set key fails exactly like FETCH's and a SEARCH UID-set key never fails (a genuine defect found here was repaired).",
+  note="Assumes dependency specs (BinarySearchFunc), sorted/indexed snapshot invariant at entry (proved preserved under C01). Undecided: completeness of the concatenation across ranges (proved per range in seqRange/uidRange only), which messages the closure built for a SEARCH message-set key selects (closure bodies are outside the contracts), duplicates in the result for overlapping ranges. Known deviation pinned by the existing tests: `n:*` with n above the highest UID selects nothing (RFC 3501 says it includes the last message) — see DESIGN.md.",
   ref="DESIGN.md §4 C16"),
  "C17": dict(
   text="Deductive proof that the four limit checks are exact for all inputs (nil iff the resulting count / UID is within the configured maximum, including the deliberate wrap-around test on int64 addition), and return the documented error. Also proved: AddMessagesToMailbox / MoveMessagesFromMailbox read count and next UID of the DESTINATION mailbox in the same transaction and write nothing unless both checks passed; State.Create checks the mailbox limit for every mailbox it is about to create (name and missing parents; a genuine defect found here was repaired).",
